@@ -86,9 +86,62 @@ def gen_case(rng, idx):
     return dict(script=script, stack=st, flags=fl, sv=sv, k=k, toks=None)
 
 
+def gen_sig_case(rng, idx):
+    """tapscript sessions whose script AND exec lists contain signature checks that consume the BIP342 validation-weight
+    budget: a non-empty signature against a public key of an unknown type (not 32 bytes) passes without any transaction
+    and costs 50 units, so the budget - and the error once it is exhausted - is decided by how many checks ran so far,
+    whether they came from the script or from exec."""
+    fl = rng.choice([STANDARD & ~F["DISCOURAGE_UPGRADABLE_PUBKEYTYPE"]] * 4 + [STANDARD, 0])
+    W = rng.choice([0, 49, 50, 51, 99, 100, 101, 149, 150, 200, 1000])
+
+    def unit(as_tokens):
+        sig = rng.choice([b'', bytes(rng.randrange(1, 256) for _ in range(rng.choice([1, 64, 64, 65])))])
+        pk = rng.choice([bytes(rng.randrange(256) for _ in range(rng.choice([1, 33, 33, 31, 20]))), bytes(rng.randrange(256) for _ in range(32)), b''])
+        kind = rng.choice(['CHECKSIG', 'CHECKSIG', 'CHECKSIGVERIFY', 'CHECKSIGADD'])
+        if as_tokens:
+            t = []
+            if kind == 'CHECKSIGADD':
+                t = [sig.hex() if sig else 'OP_0', str(rng.choice([1, 2, 7])), pk.hex() if pk else 'OP_0', 'OP_CHECKSIGADD']
+            else:
+                t = [sig.hex() if sig else 'OP_0', pk.hex() if pk else 'OP_0', 'OP_' + kind]
+            return t
+        b = push_data(sig)
+        if kind == 'CHECKSIGADD':
+            b += bytes([OP_3])
+        b += push_data(pk) + bytes([OP[kind]])
+        if kind != 'CHECKSIGVERIFY':
+            b += bytes([OP_DROP])
+        return b
+    script = b''
+    for _ in range(rng.choice([0, 1, 2, 3])):
+        script += rng.choice([bytes([OP_NOP]), bytes([OP_1, OP_DROP]), b'']) + unit(False)
+    script += bytes([OP_1])
+    nops = len(decode_all(script))
+    # the prefix must be steppable: stop before the first operation the reference refuses
+    ok_steps = 0
+    probe = Interp(script, [], fl, TAPSCRIPT, weight=W)
+    try:
+        while not probe.at_end():
+            probe.step()
+            ok_steps += 1
+    except (ScriptFail, NumErr):
+        pass
+    nops = ok_steps
+    k = rng.choice([0, nops // 2, max(0, nops - 1), nops, rng.randint(0, nops)])
+    toks = []
+    for _ in range(rng.choice([1, 1, 2, 3])):
+        toks += unit(True)
+        if rng.random() < 0.3:
+            toks.append(rng.choice(['OP_DROP', 'OP_NOP', 'OP_DUP']))
+    return dict(script=script, stack=[], flags=fl, sv=TAPSCRIPT, k=k, toks=toks, weight=W)
+
+
 def judge(c, evs, part):
     script, stack, flags, sv, k, toks = c['script'], c['stack'], c['flags'], c['sv'], c['k'], c['toks']
     wit = dict(script=script.hex(), stack=[x.hex() for x in stack], flags=flags, sv=sv, steps_before=k, exec=toks)
+    W = c.get('weight')
+    if W is not None:
+        wit['weight'] = W
     part.evaluations += 1
     if any(kd == 'CRASH' for kd, e in evs):
         return
@@ -97,7 +150,7 @@ def judge(c, evs, part):
         part.inconc('setup')
         return
     # reference pre-state
-    it = Interp(script, stack, flags, sv)
+    it = Interp(script, stack, flags, sv, weight=W)
     pos = 1
     for i in range(k):
         if pos >= len(st) or st[pos][0] != 'S':
@@ -130,7 +183,7 @@ def judge(c, evs, part):
     lenient = any(l for b, l in comp)
     prog = b''.join(b for b, l in comp)
     # execute on the pre-state
-    ex = Interp(prog, list(it.stack), flags, sv, alt=list(it.alt), vf=list(it.vf))
+    ex = Interp(prog, list(it.stack), flags, sv, weight=it.weight, alt=list(it.alt), vf=list(it.vf))
     ex.nop = it.nop
     res = None
     try:
@@ -164,7 +217,9 @@ def judge(c, evs, part):
             wit['ref'] = res
             part.violation('exec-succeeds-where-script-would-fail:' + res, wit)
             return
-        if res.startswith('NUM_'):
+        if res == 'ANY':     # (a real signature check without a transaction: fails, the code is not specified)
+            pass
+        elif res.startswith('NUM_'):
             if ek != res:
                 part.violation('exec-error-differs', wit)
         elif x.err != res and not (lenient and x.err == 'MINIMALDATA'):
@@ -194,7 +249,9 @@ def judge(c, evs, part):
     part.nontrivial.add(nt_hash(script, k, tuple(toks), flags, sv))
     part.sample(dict(script=script.hex()[:120], steps_before=k, exec=toks, stack_after=[s.hex() for s in x.stack][:8]), limit=2)
     # the rest of the session continues from the post-exec state
-    it.stack, it.alt, it.vf, it.nop = list(ex.stack), list(ex.alt), list(ex.vf), ex.nop
+    it.stack, it.alt, it.vf, it.nop, it.weight = list(ex.stack), list(ex.alt), list(ex.vf), ex.nop, ex.weight
+    if W is not None:
+        part.count('sigop_budget_after_exec', 'exhausted-later' if ex.weight is not None and ex.weight < 50 else 'left')
     rest = [e for kd, e in st[pos:] if kd == 'S']
     i = 0
     while not it.at_end():
@@ -206,7 +263,7 @@ def judge(c, evs, part):
         try:
             it.step()
         except ScriptFail as f:
-            if e.ret or e.err != f.code:
+            if e.ret or (e.err != f.code and f.code != 'ANY'):
                 wit['ref'] = f.code
                 wit['impl'] = e.err
                 part.violation('continuation-after-exec-differs:error', wit)
@@ -228,14 +285,19 @@ def worker(job):
     try:
         cases = []
         for i in range(n):
-            c = gen_case(rng, i)
-            c['toks'] = gen_tokens(rng, c['sv'], 0)
-            if rng.random() < 0.03:
+            if i % 8 == 7:
+                c = gen_sig_case(rng, i)
+            else:
+                c = gen_case(rng, i)
+                c['toks'] = gen_tokens(rng, c['sv'], 0)
+            if 'weight' not in c and rng.random() < 0.03:
                 c['toks'].insert(rng.randrange(len(c['toks']) + 1), rng.choice(['OP_BOGUS', 'zz', 'OP_', '12x', '0x12']))
             c['id'] = 'x%d.%d' % (idx, i)
             cmds = ['N ' + c['id'], 'SV %d' % c['sv'], 'FL %d' % c['flags'], 'SC %s' % hexs(c['script'])]
             if c['stack']:
                 cmds.append('ST ' + items(c['stack']))
+            if c.get('weight') is not None:
+                cmds.append('XD - - %d' % c['weight'])
             cmds.append('SU')
             cmds += ['S'] * c['k']
             cmds.append('X ' + ' '.join((t.encode().hex() or '-') for t in c['toks']))
@@ -265,8 +327,8 @@ def main():
         for w in d['witnesses']:
             if not w or 'exec' not in w:
                 continue
-            c = dict(id='r', script=bytes.fromhex(w['script']), stack=[bytes.fromhex(x) for x in w['stack']], flags=w['flags'], sv=w['sv'], k=w['steps_before'], toks=w['exec'])
-            cmds = ['N r', 'SV %d' % c['sv'], 'FL %d' % c['flags'], 'SC %s' % hexs(c['script'])] + (['ST ' + items(c['stack'])] if c['stack'] else []) + ['SU'] + ['S'] * c['k'] + \
+            c = dict(id='r', script=bytes.fromhex(w['script']), stack=[bytes.fromhex(x) for x in w['stack']], flags=w['flags'], sv=w['sv'], k=w['steps_before'], toks=w['exec'], weight=w.get('weight'))
+            cmds = ['N r', 'SV %d' % c['sv'], 'FL %d' % c['flags'], 'SC %s' % hexs(c['script'])] + (['ST ' + items(c['stack'])] if c['stack'] else []) + (['XD - - %d' % c['weight']] if c['weight'] is not None else []) + ['SU'] + ['S'] * c['k'] + \
                    ['X ' + ' '.join((t.encode().hex() or '-') for t in c['toks']), 'CS']
             wd = scratch('c16r')
             events, crashes, hangs = run_harness_cases(bindir, [('r', cmds)], wd)
@@ -282,9 +344,10 @@ def main():
     return rep.finish(
         rule='session = model-steered script stepped to a random prefix (start, middle, last op, end); exec token lists of 1..8 tokens in exec\'s own grammar (opcode names with/without OP_, decimals, hex pushes, '
              'invalid tokens at 3%); judged against the reference executing the compiled operations on the same pre-state, then the remaining script is stepped and compared. '
+             'every 8th case is a tapscript session with an explicit BIP342 validation-weight budget (0..1000) whose script and exec lists contain CHECKSIG/CHECKSIGVERIFY/CHECKSIGADD on non-empty signatures and unknown-type keys, so that exec\'d checks must consume the same budget as scripted ones. '
              'non-trivial = distinct (script, prefix, token list, flags, sigversion) whose exec result (state or required error) was compared',
         assumptions=['token -> operation mapping is exec\'s documented grammar (round-tripping decimal = number, even-length hex = data push, else opcode name); a data push that is not the minimal form may or may not trip MINIMALDATA',
-                     'signature opcodes and OP_CODESEPARATOR inside exec are exercised by C15 (memory safety), not judged here'],
+                     'signature opcodes inside exec are judged in tapscript sessions without a transaction (empty signatures, unknown public-key types, budget exhaustion); real signature verification and OP_CODESEPARATOR inside exec are exercised by C15 (memory safety) only'],
         min_events=1000)
 
 
